@@ -73,10 +73,14 @@ func ids(n int) []uint16 {
 }
 
 // runAdapters wires adapters synchronously and runs op on every party.
+// quietLimit: how long a key generation / signing run may stay silent before it is given up.
+const quietLimit = 240 * time.Second
+
 func runAdapters(scheme string, parties []uint16, thr int, shares map[uint16][]byte, op func(id uint16, a adapter, ctx context.Context) ([]byte, error), phase string, timeout time.Duration) (map[uint16][]byte, map[uint16]error, []capMsg) {
 	inst := map[uint16]adapter{}
 	var mu sync.Mutex
 	var caps []capMsg
+	lastActivity := time.Now()
 	for _, id := range parties {
 		inst[id] = newAdapter(scheme, id)
 	}
@@ -89,6 +93,7 @@ func runAdapters(scheme string, parties []uint16, thr int, shares map[uint16][]b
 			m := append([]byte(nil), msg...)
 			mu.Lock()
 			caps = append(caps, capMsg{From: id, To: to, Bcast: bc, Data: m, Phase: phase})
+			lastActivity = time.Now()
 			mu.Unlock()
 			for _, dst := range parties {
 				if dst == id || (!bc && dst != to) {
@@ -103,6 +108,26 @@ func runAdapters(scheme string, parties []uint16, thr int, shares map[uint16][]b
 	var wg sync.WaitGroup
 	ctx, cancel := context.WithTimeout(context.Background(), timeout)
 	defer cancel()
+	// patience is measured in silence, not in total time (real time on a loaded machine): the run is
+	// given up when no party has sent anything for quietLimit
+	stopQuiet := make(chan struct{})
+	defer close(stopQuiet)
+	go func() {
+		for {
+			select {
+			case <-stopQuiet:
+				return
+			case <-time.After(2 * time.Second):
+			}
+			mu.Lock()
+			quiet := time.Since(lastActivity)
+			mu.Unlock()
+			if quiet > quietLimit {
+				cancel()
+				return
+			}
+		}
+	}()
 	for _, id := range parties {
 		id := id
 		wg.Add(1)
@@ -468,7 +493,7 @@ func eddsaCase(n, thr int) harness.Case {
 					c.Add("evaluations", 1)
 					if serrs[id] != nil {
 						c.Violation("sign", "c19-eddsa-sign-fails", fmt.Sprintf("%s signers %v digest#%d: party %d: %v", what, signers, di, id, serrs[id]), replay{"eddsa", n, thr, "sign"})
-						continue
+						return // every further signing run would wait out its patience as well
 					}
 					if !ed25519.Verify(ed25519.PublicKey(pk), dg, sigs[id]) {
 						cl := "other"
@@ -739,7 +764,7 @@ func ecdsaCase(n, thr int) harness.Case {
 						continue
 					}
 					c.Violation("sign", "c19-ecdsa-sign-fails", fmt.Sprintf("%s digest#%d: party %d: %v", what, di, id, serrs[id]), replay{"ecdsa", n, thr, "sign"})
-					continue
+					return // every further signing run would wait out its patience as well
 				}
 				if !ecdsa.VerifyASN1(pub.(*ecdsa.PublicKey), dg, sigs[id]) {
 					cl := "other"
